@@ -364,9 +364,9 @@ def run(chk):
         picked = []
         for ty in range(1, 7):   # one base of every type, announces of the three nonce-relevant versions
             cand = [m for m in bases if m["ty"] == ty]
-            picked += rng.sample(cand, min(len(cand), (2 if ty == 1 else 1) if not thorough else 8))
+            picked += rng.sample(cand, min(len(cand), (2 if ty == 1 else 1) if not thorough else 4))
         hm = [msg_line(200000 + i, m, key(), mut=True) for i, m in enumerate(picked)]
-        hm += [msg_line(300000 + i, random_message(rng), key(), mut=True) for i in range(4 if not thorough else 60)]
+        hm += [msg_line(300000 + i, random_message(rng), key(), mut=True) for i in range(4 if not thorough else 24)]
         rnd = ["rand n=%d seed=%d maxlen=%d key=%s" % ((8000 if not thorough else 100000) // 4, rng.getrandbits(31), ml, key()) for ml in (40, 120, 300, 1200)]
         all_lines = lines + hm + rnd
         jobs = []
